@@ -68,7 +68,27 @@ func runC12(c *Ctx) {
 			if !g {
 				_, g = c.Guarded(sl, Op("binop", "<", Op("builtin", "len", Is(x)), Const(nonceLen)), false)
 			}
-			c.Check(g, "C12.D1-slice-bounded", key, sl.Pos(), "slice at the nonce length dominated by a length test on the same parameter", "caller-supplied bytes are sliced at the nonce length without a length test: truncated ciphertext panics instead of returning an error")
+			if !g {
+				// a stricter test is fine as long as it lets every real ciphertext through: the shortest one is the nonce
+				// plus the 16-byte AES-GCM tag (the encryption of an empty payload)
+				nl, _ := strconv.Atoi(nonceLen)
+				for _, fct := range c.FactsAt(sl.Block()) {
+					if fct.Val || fct.Cond.Op != "binop" || len(fct.Cond.Args) != 2 {
+						continue
+					}
+					if _, isLen := Match(Op("builtin", "len", Is(x)), fct.Cond.Args[0]); !isLen || fct.Cond.Args[1].Op != "const" {
+						continue
+					}
+					k, err := strconv.Atoi(fct.Cond.Args[1].Name)
+					if err != nil {
+						continue
+					}
+					if (fct.Cond.Name == "<" && k >= nl && k <= nl+16) || (fct.Cond.Name == "<=" && k >= nl && k < nl+16) {
+						g = true
+					}
+				}
+			}
+			c.Check(g, "C12.D1-slice-bounded", key, sl.Pos(), "slice at the nonce length dominated by a length test on the same parameter", "caller-supplied bytes are sliced at the nonce length without a length test — or under one that also turns away real ciphertexts (the shortest is nonce + 16-byte tag): truncated input panics, or an empty payload no longer decrypts")
 		})
 	}
 	c.Floor("C12.D1-slice-bounded", 2) // (the two decryptors may share one splitting helper)
@@ -334,10 +354,26 @@ func runC12(c *Ctx) {
 			}
 		}
 		okD := false
+		// (the split may be done by a helper that also checks the length: its one non-nil result is the value)
+		through := func(x *X) *X {
+			if h, _ := helperCall(x); h == nil {
+				return x
+			}
+			var vals []*X
+			for _, a := range c.RetAlts(x) {
+				if v := strip(a.Val); v != nil && v.Op != "nil" {
+					vals = append(vals, a.Val)
+				}
+			}
+			if len(vals) == 1 {
+				return vals[0]
+			}
+			return x
+		}
 		for _, cs := range c.CallsInl(d.SSA, Call("dhash.DecryptAES"), 2) {
 			in := Op("param", d.SSA.Params[0].Name())
-			_, a := Match(Op("slice", "", in, Op("nil", ""), Const(nonceLen)), cs.X.Args[0])
-			_, b := Match(Op("slice", "", in, Const(nonceLen), Op("nil", "")), cs.X.Args[1])
+			_, a := Match(Op("slice", "", in, Op("nil", ""), Const(nonceLen)), through(cs.X.Args[0]))
+			_, b := Match(Op("slice", "", in, Const(nonceLen), Op("nil", "")), through(cs.X.Args[1]))
 			_, k := Match(Op("param", d.SSA.Params[1].Name()), cs.X.Args[2])
 			okD = a && b && k
 		}
